@@ -145,12 +145,15 @@ class Count(Factory, Container):
     def _numpy(self, _, weights, shape):
         import numpy
 
+        # an unpickled Count holds an equal copy of ``identity``, not the object itself
+        plain = self.transform is identity or self.transform == identity
+
         if isinstance(weights, numpy.ndarray):
             assert len(weights.shape) == 1
             if shape[0] is not None:
                 assert weights.shape[0] == shape[0]
 
-            if self.transform is identity:
+            if plain:
                 self.entries += float(weights.sum())
             else:
                 t = self.transform(weights)
@@ -160,7 +163,7 @@ class Count(Factory, Container):
                 self.entries += float(t.sum())
 
         elif shape[0] is not None:
-            if self.transform is identity:
+            if plain:
                 self.entries += weights * shape[0]
             else:
                 t = self.transform(numpy.array([weights]))
@@ -169,7 +172,7 @@ class Count(Factory, Container):
                 self.entries += float(t[0])
 
         elif isinstance(weights, (int, float, numpy.number)):
-            if self.transform is identity:
+            if plain:
                 self.entries += float(weights)
             else:
                 self.entries += self.transform(weights)
